@@ -1939,6 +1939,113 @@ fn run_history<L: TL>(rng: &mut Rng, r: &mut Report, cx: &Ctx, shape: Shape, ops
     if h.dead {
         r.count("histories.ended_early");
     }
+    node_level_probe(rng, r, cx);
+}
+
+// ---------------------------------------------------------------------------------------------
+// node level: the tracker as the signer itself keeps, persists and restores it
+// ---------------------------------------------------------------------------------------------
+
+/// The histories above restart a bare tracker; a signer restart goes through the node's store and
+/// `Node::restore_node`.  This probe runs a real node (in-memory or cloud-staged store) configured with 1-3
+/// trusted oracle keys: valid blocks, restart, then a block attested only by an untrusted key / a minority /
+/// forged signatures must still be refused, the oracle set must be what was configured, and a valid block must
+/// still be accepted.
+fn node_level_probe(rng: &mut Rng, r: &mut Report, cx: &Ctx) {
+    use lightning_signer::persist::Persist;
+    use vls_verif::world::{World, WorldCfg};
+    let secp = cx.secp;
+    let n = 1 + rng.usize(3);
+    let oracles = Oracles {
+        trusted: (0..n).map(|_| gen_keypair(rng, secp)).collect(),
+        untrusted: (0..2).map(|_| gen_keypair(rng, secp)).collect(),
+    };
+    let mut cfg = WorldCfg::regtest(rng.bytes::<32>());
+    cfg.oracles = oracles.trusted.iter().map(pk).collect();
+    cfg.cloud = rng.chance(1, 3);
+    let configured = cfg.oracles.clone();
+    let mut w = match report::catch(|| World::new(cfg)) {
+        Ok(w) => w,
+        Err(p) => {
+            r.inconclusive(&format!("node-level probe: could not create a node: {}", p));
+            return;
+        }
+    };
+    let mut log: Vec<Value> = vec![];
+    let mut uniq = rng.next_u64() >> 16;
+    let mut add = |w: &World, rng: &mut Rng, mode: AttMode| -> Result<Result<(), String>, String> {
+        uniq += 1;
+        let u = uniq;
+        report::catch(|| {
+            w.request(|node| {
+                let mut tracker = node.get_tracker();
+                let tip = tracker.tip().clone();
+                let newh = tracker.height() + 1;
+                let block = make_block(tip.0.block_hash(), tip.0.bits, tip.0.time + 600, true, vec![coinbase(newh, u)], rng.next_u64() as u32);
+                let fh = true_fh(&block, &tip.1);
+                let atts = att_set(rng, secp, &oracles, mode, block.block_hash(), newh, fh);
+                let (txid_w, fwd) = tracker.get_all_forward_watches();
+                let proof = manual_filter_proof(atts, &block, &txid_w, &fwd);
+                tracker.add_block(block.header, proof).map_err(|e| format!("{:?}", e))?;
+                node.get_persister().update_tracker(&node.get_id(), &tracker).map_err(|e| format!("persist: {:?}", e))
+            })
+            .0
+        })
+    };
+    let detail = |log: &Vec<Value>, what: Value| json!({"seed": cx.seed, "shard": cx.shard, "history": cx.hist, "n_trusted_oracles": n, "node_level_log": log, "what": what});
+    let bad_modes = |n: usize| -> Vec<AttMode> {
+        let mut v = vec![AttMode::UntrustedOnly, AttMode::Minority, AttMode::ForgedSig];
+        if n >= 3 {
+            v.push(AttMode::DupTrusted);
+        }
+        v
+    };
+    let rounds = 1 + rng.usize(2);
+    for round in 0..=rounds {
+        // valid blocks first (the very first block on the filter-header-less genesis tip is not proof-checked)
+        for _ in 0..1 + rng.usize(3) {
+            let res = add(&w, rng, AttMode::Valid);
+            log.push(json!(["add valid", format!("{:?}", res)]));
+            r.count("node_level.valid_blocks");
+            if !matches!(res, Ok(Ok(()))) {
+                r.violation(if round == 0 { "tracker:node-level:valid-block-refused" } else { "tracker:node-level:valid-block-refused-after-restart" }, detail(&log, json!({"result": format!("{:?}", res)})));
+                return;
+            }
+        }
+        let tip_fh_zero = is_zero_fh(&w.node.get_tracker().tip().1);
+        if !tip_fh_zero {
+            let mode = *rng.pick(&bad_modes(n));
+            let before = w.node.get_tracker().tip().0.block_hash();
+            let res = add(&w, rng, mode);
+            log.push(json!([format!("add {:?}", mode), format!("{:?}", res)]));
+            r.count(if round == 0 { "node_level.defective_blocks_before_restart" } else { "node_level.defective_blocks_after_restart" });
+            r.distinct_hash(vls_verif::rng::fnv_str(&format!("node-level:{}:{:?}:{}:{}", n, mode, round.min(1), w.store.is_cloud())));
+            let after = w.node.get_tracker().tip().0.block_hash();
+            if matches!(res, Ok(Ok(()))) || before != after {
+                let sig = if round == 0 { "tracker:node-level:accepted-block-without-trusted-majority" } else { "tracker:node-level:accepted-block-without-trusted-majority-after-restart" };
+                r.violation(sig, detail(&log, json!({"attestations": format!("{:?}", mode), "tip_moved": before != after})));
+                return;
+            }
+        }
+        if round == rounds {
+            break;
+        }
+        match report::catch(|| w.restart()) {
+            Ok(Ok(())) => {}
+            other => {
+                r.violation("tracker:node-level:restart-failed", detail(&log, json!({"result": format!("{:?}", other)})));
+                return;
+            }
+        }
+        log.push(json!(["restart"]));
+        r.count("node_level.restarts");
+        let have = w.node.get_tracker().trusted_oracle_pubkeys.clone();
+        if have != configured {
+            r.violation("tracker:node-level:trusted-oracle-set-changed-by-restart", detail(&log, json!({"configured": configured.iter().map(|k| k.to_string()).collect::<Vec<_>>(), "after_restart": have.iter().map(|k| k.to_string()).collect::<Vec<_>>() })));
+            return;
+        }
+    }
+    r.count("node_level.probes_completed");
 }
 
 fn main() {
